@@ -3,33 +3,40 @@
 (*   New     : NewExtractor(variable) -> err                                  *)
 (*   Extract : an extraction; aid identifies the peer address abstractly      *)
 EXTENDS TraceBase, FiniteSets
-VARIABLES l, scn, byAddr, byTok, bad, drift, nev
-vars == <<l, scn, byAddr, byTok, bad, drift, nev>>
+VARIABLES l, scn, byAddr, byTok, seen, bad, drift, nev
+vars == <<l, scn, byAddr, byTok, seen, bad, drift, nev>>
 Ev == Log[l]
 IsEvent(e) == l <= Len(Log) /\ Log[l].e = e /\ l' = l + 1
-Init == l = 1 /\ scn = "" /\ byAddr = <<>> /\ byTok = <<>> /\ bad = <<>> /\ drift = <<>> /\ nev = 0
-Reset == /\ IsEvent("Reset") /\ scn' = Ev.scn /\ byAddr' = <<>> /\ byTok' = <<>> /\ UNCHANGED <<bad, drift>> /\ nev' = nev + 1
+Init == l = 1 /\ scn = "" /\ byAddr = <<>> /\ byTok = <<>> /\ seen = <<>> /\ bad = <<>> /\ drift = <<>> /\ nev = 0
+Reset == /\ IsEvent("Reset") /\ scn' = Ev.scn /\ byAddr' = <<>> /\ byTok' = <<>> /\ seen' = <<>> /\ UNCHANGED <<bad, drift>> /\ nev' = nev + 1
 Put(f, k, v) == [x \in DOMAIN f \cup {k} |-> IF x = k THEN v ELSE f[x]]
 
 NewEv == /\ IsEvent("New")
          /\ bad' = ReportAll(bad, scn, l, <<
                <<Ev.supported => ~Ev.err, "C19.SupportedVariableAccepted">>,
                <<~Ev.supported => Ev.err, "C19.UnsupportedVariableRefused">> >>)
-         /\ UNCHANGED <<scn, byAddr, byTok, drift>> /\ nev' = nev + 1
+         /\ UNCHANGED <<scn, byAddr, byTok, seen, drift>> /\ nev' = nev + 1
 
+(* An extractor is a function of the request: the same remote address (for client.ip) gives the same outcome - token, *)
+(* amount, error or not - whatever was extracted before.  Holds for malformed addresses too: refused once, refused always. *)
+Outcome == [token |-> Ev.token, amount |-> Ev.amount, err |-> Ev.err]
+SameAsBefore == (Ev.kind = "ip" /\ Ev.remote \in DOMAIN seen) => seen[Ev.remote] = Outcome
 Extract ==
   /\ IsEvent("Extract")
+  /\ seen' = IF Ev.kind = "ip" /\ Ev.remote \notin DOMAIN seen /\ ~Ev.panicked THEN Put(seen, Ev.remote, Outcome) ELSE seen
   /\ IF Ev.kind = "ip"
        THEN IF Ev.wellformed
               THEN /\ bad' = ReportAll(bad, scn, l, <<
                           <<~Ev.err /\ ~Ev.panicked, "C19.PeerAddressExtracted">>,
+                          <<SameAsBefore, "C19.SameRequestSameOutcome">>,
                           <<~Ev.err => Ev.amount = 1, "C19.CountsOneUnit">>,
                           <<~Ev.err => Ev.token \in {Ev.ip, Ev.ipzone}, "C19.TokenIsPeerAddress">>,
                           <<(~Ev.err /\ Ev.aid \in DOMAIN byAddr) => byAddr[Ev.aid] = Ev.token, "C19.SameAddressSameToken">>,
                           <<(~Ev.err /\ Ev.token \in DOMAIN byTok) => byTok[Ev.token] = Ev.aid, "C19.DifferentAddressDifferentToken">> >>)
                    /\ byAddr' = IF Ev.err \/ Ev.aid \in DOMAIN byAddr THEN byAddr ELSE Put(byAddr, Ev.aid, Ev.token)
                    /\ byTok' = IF Ev.err \/ Ev.token \in DOMAIN byTok THEN byTok ELSE Put(byTok, Ev.token, Ev.aid)
-              ELSE /\ bad' = ReportAll(bad, scn, l, << <<~Ev.panicked, "C19.MalformedAddressNoPanic">> >>)
+              ELSE /\ bad' = ReportAll(bad, scn, l, << <<~Ev.panicked, "C19.MalformedAddressNoPanic">>,
+                                                             <<SameAsBefore, "C19.SameRequestSameOutcome">> >>)
                    /\ UNCHANGED <<byAddr, byTok>>
        ELSE /\ bad' = ReportAll(bad, scn, l, <<
                    <<~Ev.err /\ ~Ev.panicked, "C19.ValueExtracted">>,
